@@ -445,7 +445,7 @@ func (c *Ctx) requireLen(s *PanicSite, x *Ex, n int64, depth int) (bool, string)
 			if xs == "" {
 				return false, "cannot express " + x.String() + " at caller " + c.P.InstrPos(cs)
 			}
-			okc, why := c.RequireAt(cs, lenAtLeast(xs, n))
+			okc, why := c.requireLenAtCall(cs, xs, n, depth)
 			if !okc {
 				// the caller's own callers (one more level) when the value is again a parameter
 				return false, fmt.Sprintf("needs len(%s) >= %d; caller %s at %s does not establish it (%s)", short(x.String(), 60), n, c.P.FuncKey(cs.Parent()), c.P.InstrPos(cs), short(why, 120))
@@ -456,9 +456,40 @@ func (c *Ctx) requireLen(s *PanicSite, x *Ex, n int64, depth int) (bool, string)
 	return false, fmt.Sprintf("needs len(%s) >= %d; no dominating test", short(x.String(), 80), n)
 }
 
+// requireLenAtCall: len(xs) >= n holds at the call site cs - established in the calling function or, when
+// xs is written over that function's own parameters, at every one of its call sites (up to three levels).
+func (c *Ctx) requireLenAtCall(cs ssa.CallInstruction, xs string, n int64, depth int) (bool, string) {
+	okc, why := c.RequireAt(cs, lenAtLeast(xs, n))
+	if okc {
+		return true, ""
+	}
+	fn := cs.Parent()
+	if depth >= 3 || fn.Parent() != nil || !strings.Contains(xs, "P:") {
+		return false, why
+	}
+	callers := c.callersOf(fn)
+	if len(callers) == 0 {
+		return false, why
+	}
+	for _, up := range callers {
+		uo := c.P.OriginsOf(up.Parent())
+		ys := uo.Enter(fn, up).substituteStr(xs, fn)
+		if ys == "" {
+			return false, why
+		}
+		if ok2, why2 := c.requireLenAtCall(up, ys, n, depth+1); !ok2 {
+			return false, why + "; and its caller " + c.P.FuncKey(up.Parent()) + ": " + short(why2, 100)
+		}
+	}
+	return true, ""
+}
+
 // substitute re-expresses an expression over the callee's parameters in the caller's terms.
 func (o *Origins) substitute(x *Ex, callee *ssa.Function) string {
-	s := x.String()
+	return o.substituteStr(x.String(), callee)
+}
+
+func (o *Origins) substituteStr(s string, callee *ssa.Function) string {
 	// replace "P:name" leaves by the caller-side provenance of the corresponding argument
 	for _, prm := range callee.Params {
 		from := "P:" + prm.Name()
